@@ -350,3 +350,39 @@ func VerifC02UpdatePerNode() {
 	}
 	verifCover("C02/update-per-node/end")
 }
+
+// VerifC02AssignAncestor: put-get when the value assigned is what an ancestor of the target held: after `p = q` with q a
+// prefix of p, reading p yields the OLD value of q.
+func VerifC02AssignAncestor() {
+	x, y := verifStrN("x", 1, vDigits()), verifStrN("y", 1, vDigits())
+	form := verifChoice("form", 4)
+	forms := []string{".a.b = .a", ".a.b = .", ".a.b.d = .a", ".a.c = .a"}
+	var doc *CandidateNode
+	if form == 2 {
+		doc = vDoc(vMap(vStr("a"), vMap(vStr("b"), vMap(vStr("d"), vInt(x)), vStr("c"), vInt(y))))
+	} else {
+		doc = vDoc(vMap(vStr("a"), vMap(vStr("b"), vInt(x), vStr("c"), vInt(y))))
+	}
+	oldA := vDump(doc.Content[1])
+	oldRoot := vDump(doc)
+	_, err := vEval(vParse(forms[form]), doc)
+	label := "form=" + forms[form]
+	verifAssert(err == nil, "C02/assign-ancestor-error "+label)
+	if err != nil {
+		return
+	}
+	readPath := []string{".a.b", ".a.b", ".a.b.d", ".a.c"}[form]
+	res, rerr := c03EvalReadOnly(vParse(readPath), doc)
+	verifAssert(rerr == nil && res.Len() == 1, "C02/assign-ancestor-read "+label)
+	if rerr != nil || res.Len() != 1 {
+		return
+	}
+	got := vDump(res.Front().Value.(*CandidateNode))
+	want := oldA
+	if form == 1 {
+		want = oldRoot
+	}
+	verifObserve("got", got)
+	verifAssert(verifEqStr(got, want), "C02/put-get-of-an-ancestor's-value "+label)
+	verifCover("C02/assign-ancestor/end")
+}
